@@ -23,7 +23,7 @@ def write_extras(rng, kind, m, d):
         return models.random_unit(rng)
     with open(os.path.join(d, "elec.txt"), "w") as fh:
         for k in range(3):
-            u = unit(); rad = [0.0, 0.0 if kind == "split0" else 0.45 * R, 0.0][k]   # split0: a radius across the two hemispheres makes Sensors throw map::at (reported to C09)
+            u = unit(); rad = [0.0, 0.0 if kind in ("split0", "split0z") else 0.45 * R, 0.0][k]   # split0: a radius across the two hemispheres makes Sensors throw map::at (reported to C09)
             fh.write(" ".join(repr(R * 1.02 * x) for x in u) + " " + repr(rad) + "\n")
     with open(os.path.join(d, "squids.txt"), "w") as fh:
         for k in range(4):
